@@ -334,6 +334,7 @@ CHECKS["C03"] = {
     "units": [
         {"name": "httpserver", "pkg": "pkg/object/httpserver", "test": "TestVerifC03", "inject": [LOOPBACK]},
         {"name": "hostheader", "pkg": "pkg/filters/proxy", "test": "TestVerifC03host", "inject": [PROXYRIG], "workers": 2},
+        {"name": "memcache", "pkg": "pkg/filters/proxy", "test": "TestVerifC03cache", "inject": [PROXYRIG], "workers": 4},
     ],
 }
 
